@@ -170,7 +170,7 @@ def l1(rep, tier):
     universes = [dict(na=2, w=1, smax=3, maxlen=3, maxu=2)]
     if tier == "thorough":
         universes += [dict(na=2, w=2, smax=3, maxlen=3, maxu=2), dict(na=3, w=1, smax=2, maxlen=2, maxu=1),
-                      dict(na=2, w=1, smax=2, maxlen=4, maxu=3)]
+                      dict(na=2, w=1, smax=2, maxlen=3, maxu=3)]       # 3 units per annotator: 80 707 states, ~5 min (maxlen=4 did not finish in 40 min)
     else:
         universes += [dict(na=3, w=1, smax=1, maxlen=2, maxu=1)]
     universes += [dict(na=3, w=1, smax=1, maxlen=2, maxu=2)]       # uneven sizes incl. empty annotators: window "covers" via w*n >= total
